@@ -15,7 +15,8 @@ SPEC = dict(
          "environment's real sampler (deterministic 1/2/10/2^32+1, rules with keep/drop/zero rules) or by a scripted sampler answer "
          "(rates 1..2^64-1 incl. 2^32-1, 2^32, 2^32+1), sendTraces on one decided trace, ProcessSpanImmediately with the real "
          "StressRelief.GetSampleRate (SamplingRate 1,2,3,100,2^32,2^32+7; two trace ids whose hash is kept at 2^32), reloads toggling "
-         "DryRun and the decoration options; non-trivial = at least one span was forwarded after a decision; distinct by transcript hash",
+         "DryRun and the decoration options, plus stateless probes of the real samplers' rate floor (DeterministicSampler, RulesBasedSampler, "
+         "DynamicSampler fed by a dynsampler answering -5..2^62) and of route's batch sample-rate conversion; non-trivial = at least one span was forwarded after a decision; distinct by transcript hash",
     trusted_base=["transmit.MockTransmission records what EnqueueSpan receives",
                   "types.Payload.All/Get report the fields that would be serialised",
                   "the harness makes one trace due by setting its SendBy to the (never advancing) fake clock's now before calling the real sendExpiredTracesInCache",
